@@ -32,7 +32,7 @@ CLAIMS = {
             '(Verus, ghost accepted set). Packet::decode (Kani, complete for datagrams 0..=48 bytes, all prefix bytes): window consulted before the AEAD, advanced only '
             'after the AEAD accepted that datagram, AAD = version||protocol id||prefix, nonce = decoded sequence, ciphertext = whole remainder.',
             'Assumed: AEAD idealisation (chacha20poly1305 is stubbed by its contract). Sentinel: sequence 2^64-1 is the EMPTY marker and excluded. '
-            'Server side (U19): a payload is reported only for a connected session at the sending address, from a datagram Packet::decode accepted under that session\'s key with its replay window. Not decided: update_client.'),
+            'Server side (U19): a payload is reported only for a connected session at the sending address, from a datagram Packet::decode accepted under that session\'s key, only if that session\'s replay window did not hold the datagram\'s sequence number, and the window then records it (at most once). Not decided: update_client.'),
     'C06': ('No precondition on wire-controlled arguments: SliceConstructor, both receive channels (as listed in the evidence) and the ack list return for every input, '
             'without index/overflow/unreachable failures, keep memory == sum of what is stored <= max.',
             'RenetClient::process_packet is proved verbatim with no precondition on the bytes (U15): it returns for every input; undecodable bytes, an unknown channel id or a channel error only move the connection '
@@ -41,7 +41,7 @@ CLAIMS = {
     'C07': ('Packet::decode returns for every datagram of length 0..=48 with all 256 prefix bytes and announced sequence lengths 0..15, with and without key (Kani, complete '
             'for that length range; AEAD stubbed with its precondition checked); a datagram the AEAD did not accept leaves the replay window untouched; '
             'ReplayProtection has no precondition on the sequence (Verus).',
-            'Not decided: NetcodeServer::process_packet (out of reach). Client/token harnesses are listed in the evidence when unit U12 is present.'),
+            'Server (U19, Verus): a datagram NetcodeServer::process_packet_internal refuses refreshes no session\'s time-out and changes no session (C10 frame clauses). Client/token harnesses are listed in the evidence when unit U12 is present.'),
     'C08': ('The pending-ack list never contains a sequence that was not added (view(final) subset of view(old)+{q}), stays sorted/disjoint/non-adjacent for any arrival '
             'order and is trimmed exactly up to the horizon by acked_largest (Verus, unbounded).',
             'Every decodable non-Ack packet handed to RenetClient::process_packet has its sequence recorded by add_pending_ack (U15). The Ack arm of RenetClient::process_packet (U15): exactly the records whose sequence lies inside a received half-open range are removed (none outside), acknowledgements only release or mark messages of reliable send channels (nothing is added or altered), '
@@ -116,7 +116,7 @@ CLAIMS.update({
     'C18': ('Step contracts (client: Kani, complete over any token value, any state, any timers below 2^40 s; server: Verus, U19): client update disconnects a connected client exactly when no packet arrived for more than '
             'timeout_seconds, moves a timed-out connecting client to the next listed address or gives up, produces at most one packet per 250 ms; only a datagram that decoded refreshes '
             'last_packet_received_time (forged/replayed packets do not postpone a timeout).',
-            'Server: update_client drops a session only when it was marked disconnected or nothing arrived for more than its timeout_seconds, and sends its keep-alive to that session\'s address. '
+            'Server: update_client drops a session only when it was marked disconnected or nothing arrived for more than its timeout_seconds, and sends its keep-alive to that session\'s address; an accepted payload refreshes that session\'s receive time, and a session that completes its handshake starts connected with a fresh receive time. '
             'NetcodeServer::update expires half-open sessions exactly at their token expiry. Not decided: everything phrased as eventually / within bounded time and the two-endpoint composition: '
             'contracts are the wrong tool for that half.'),
 })
